@@ -149,16 +149,25 @@ impl RdbEngine {
         // Note: We don't check bgsave_in_progress here because save() can be called
         // from within bgsave() thread. The caller is responsible for managing concurrency.
         
-        // Create temporary file
-        let temp_path = self.file_path.with_extension("tmp");
+        // Create temporary file. The name is unique per save: a SAVE issued while a
+        // background save is running must not write into (and truncate) its file
+        static SAVE_SEQUENCE: std::sync::atomic::AtomicU64 = std::sync::atomic::AtomicU64::new(0);
+        let temp_path = self.file_path.with_extension(format!(
+            "tmp.{}.{}",
+            std::process::id(),
+            SAVE_SEQUENCE.fetch_add(1, std::sync::atomic::Ordering::Relaxed)
+        ));
         
         println!("RDB: Starting dump to {}", temp_path.display());
         
         #[cfg(feature = "verif")]
         let _verif_save_scope = VerifSaveScope::begin();
         
-        // Write to temporary file
-        self.write_snapshot(storage, &temp_path)?;
+        // Write to temporary file (removed again if the save fails)
+        if let Err(e) = self.write_snapshot(storage, &temp_path) {
+            let _ = std::fs::remove_file(&temp_path);
+            return Err(e);
+        }
         
         #[cfg(feature = "verif")]
         crate::verif::rdb_step("rename")
